@@ -113,7 +113,7 @@ PROPS["C01"] = dict(
 )
 
 PROPS["C14"] = dict(
-    modules=["Morlock.Props.C14", "Morlock.Props.GenTie"],
+    modules=["Morlock.Props.C14", "Morlock.Props.GenTie", "Morlock.Props.C05Sync"],
     streams=["fencanon", "game", "engine"],
     level_text="Lean theorems (full): decode (encode p c np fm) = (p, c, np, fm) for EVERY position whose views agree (Rep), all rights sets, any target square, clocks up to int64 "
                "(decode_encode; the int64 bound is proved necessary); encode (decode s) = s for every canonical FEN string (encode_decode, with Canonical the standard grammar), "
@@ -123,7 +123,7 @@ PROPS["C14"] = dict(
     technique="Lean 4 proof (run-length rank codec, 8x8 grid, Rep machinery, Nat.toDigits round trip) + differential impl/model/spec over canonical FENs and game histories",
     rule="canonical FENs of generated positions with all 16 rights sets, e.p. on both ranks, both sides, clocks 0..10^6; game histories with castling, e.p., promotions, "
          "take-backs and forks; non-trivial = distinct (position key, clocks) / history containing a special move, draw, fork or pop",
-    partial=["'the FEN an engine reports is the standard FEN of its game' over all histories is decided by differential streams, not a theorem"],
+    partial=["'the FEN an engine reports is the standard FEN of its game': C05Sync.fen_agrees / position_agrees prove, for every board built by set-up, generated moves, take-backs and forks, that what the FEN encodes (placement, rights, e.p. target, side, half-move clock, full-move number) is that of the reference game; that Model.Fen.encode and Spec.printFen print equal fields as equal strings is decided by the streams"],
     modelled=["board/fen/fen.go: Decode, Encode and helpers -> Model.Fen", "board/board.go clocks -> Model.Board"],
 )
 
@@ -207,7 +207,7 @@ PROPS["C07"] = dict(
 )
 
 PROPS["C08"] = dict(
-    modules=["Morlock.Props.C08"],
+    modules=["Morlock.Props.C08", "Morlock.Props.C08Many"],
     streams=["game"],
     level_text="Lean theorems (full) on an arena model of the pointer-linked history: push then pop restores every observation (position, side, hash, clock, ply, full moves, "
                "castled flags, last / second-to-last move, HasMoved(k) for every k, the repetition map) and leaves a not-drawn result, at any nesting depth (pushes_pops), "
@@ -219,12 +219,12 @@ PROPS["C08"] = dict(
     rule="random interleavings of push / pop / fork / switch over 1-4 boards, pops never below a fork point; all getters of every board compared after every op; "
          "non-trivial = script with fork or pop or special move; distinct by script",
     partial=["castled flags are restored under CastleOnce (a side castles at most once along a line - guaranteed by chess, not checked by the board)",
-             "fork isolation is a theorem for two boards (original + one fork) under moves and take-backs; more boards / nested forks / adjudication: stream"],
+             "fork isolation: C08Many.isolated_many covers any number of boards, forks at any time, forks of forks and adjudication (each board reports what running only its own lineage of operations would report), under the side condition that no board pops below the point where it was created or last forked (pop_below_fork_clobbers shows the condition is needed)"],
     modelled=["board/board.go: NewBoard, Fork, PushMove, PopMove, LastMove, SecondToLastMove, HasMoved, HasCastled, getters -> Model.Board"],
 )
 
 PROPS["C05"] = dict(
-    modules=["Morlock.Props.C05", "Morlock.Props.C07Board", "Morlock.Props.GenTie"],
+    modules=["Morlock.Props.C05", "Morlock.Props.C07Board", "Morlock.Props.GenTie", "Morlock.Props.C05Sync"],
     streams=["game"],
     level_text="Lean theorems (full): PushMove reports a draw iff the position just reached has occurred >= 3 times on the WHOLE line (start included) or the clock >= 100 or the "
                "move was a capture / under-promotion into insufficient material, with the reason by precedence and 'five-fold' from 5 (draw_iff, draw_sound, draw_complete, "
@@ -241,9 +241,9 @@ PROPS["C05"] = dict(
                "The link to the reference Spec.Game (spec_link, game_link) is proved for linear games; after take-backs and on forks it is decided by the stream. Reason precedence when several conditions hold is not prescribed by the property: any holding reason is accepted by the stream.",
     technique="Lean 4 refinement proof (arena line vs whole-history count; decreasing measure for irreversibility; C07 for hash faithfulness) + differential game histories",
     rule="histories in 4 styles (biased, shuffling, quiet, mixed) from 24 draw-prone starts + corpus + synthetic; non-trivial = history reaching a draw (rep3/rep5/np/mat), adjudication, fork, pop or special move; distinct by script",
-    partial=["the link to the whole-history reference Spec.Game is a theorem for linear games (set-up + pushes); after take-backs / on forks the draw verdict is a theorem (draw_iff_genBoard) "
-             "but its equality with the reference is decided by the stream",
-             "operations on OTHER boards interleaved between the steps of one board rest on C08.fork_isolated (one fork)"],
+    partial=["the link to the whole-history reference Spec.Game is a theorem for every board built by set-up, generated moves, take-backs and forks (C05Sync: GenGame carries the reference game along; "
+             "draw_agrees, position_agrees, genBoard_game); boards outside GenGame (set-ups that are not PosOK, popping below a fork point) are decided by the stream",
+             "operations on OTHER boards interleaved between the steps of one board: C05Sync.sync_other / C08Many.isolated_many (any number of boards, forks of forks, adjudication; no pop below a fork point)"],
     modelled=["board/board.go: PushMove draw logic, identicalPositionCount, updateNoProgress, AdjudicateNoLegalMoves; position.go HasInsufficientMaterial -> Model.Board / Model.Position"],
 )
 
